@@ -828,7 +828,7 @@ pub fn run(a: &Args) -> i32 {
     let mut case = 0u64;
 
     // A
-    let nseq: u64 = if miri { 60 } else if quick { 60_000 } else { 600_000 };
+    let nseq: u64 = if miri { 30 } else if quick { 60_000 } else { 600_000 };
     for i in 0..nseq {
         let big = if miri {
             300
@@ -872,14 +872,14 @@ pub fn run(a: &Args) -> i32 {
 
     // B
     // every spill does two sync_all(): ~30 ms per spiller on this machine
-    let nps: u64 = if miri { 6 } else if quick { 300 } else { 2_000 };
+    let nps: u64 = if miri { 3 } else if quick { 300 } else { 2_000 };
     for _ in 0..nps {
         stage_partition(&mut ctx, &mut rng, case, &scratch, files);
         case += 1;
     }
     ctx.extra.insert("stage_b_done_at_s".into(), json!(ctx.elapsed()));
     // C
-    let nsq: u64 = if miri { 10 } else if quick { 3_000 } else { 50_000 };
+    let nsq: u64 = if miri { 5 } else if quick { 3_000 } else { 50_000 };
     for _ in 0..nsq {
         stage_subquery(&mut ctx, &mut rng, case, files);
         case += 1;
